@@ -487,6 +487,16 @@ def chunk_derived(chunk, acc):
                     acc.case((hs, us, pad))
                     if isinstance(got, str) or ([tuple(p) for p in got[0]], got[1], got[2]) != exp:
                         acc.fail("C03/derived/domains", {"kind": "domains", "raw": raw.hex()}, _js(exp), got if isinstance(got, str) else [list(map(list, got[0])), got[1], got[2]])
+    # lists with an empty entry: position decides what an entry is (even = host, odd = URI)
+    for raw, pairs in ((b"c1.example.com,,c2.example.com,/en_US/all.js", [("c1.example.com", ""), ("c2.example.com", "/en_US/all.js")]), (b"h1,/a,,/b", [("h1", "/a"), ("", "/b")]), (b"h1,/a,h2,", [("h1", "/a"), ("h2", "")]), (b",/a,h2,/b", [("", "/a"), ("h2", "/b")])):
+        bc = beacon.BeaconConfig(tlv.encode([(1, 1, b"\x00\x00"), (8, 3, raw.ljust(256, b"\x00"))]))
+        acc.states += 1
+        acc.transitions += 1
+        got = call(lambda: (bc.domain_uri_pairs, bc.domains, bc.uris))
+        exp = (pairs, list(dict.fromkeys(h for h, _ in pairs)), list(dict.fromkeys(u for _, u in pairs)))
+        acc.case(("empty-entry", raw))
+        if isinstance(got, str) or ([tuple(p) for p in got[0]], got[1], got[2]) != exp:
+            acc.fail("C03/derived/domains", {"kind": "domains", "raw": raw.ljust(256, b"\x00").hex()}, _js(exp), got if isinstance(got, str) else [list(map(list, got[0])), got[1], got[2]])
     bc = beacon.BeaconConfig(tlv.encode([(2, 1, b"\x00\x50")]))
     acc.case("nodomains")
     got = call(lambda: (bc.domain_uri_pairs, bc.domains, bc.uris, bc.protocol, bc.watermark, bc.is_trial, bc.killdate, bc.submit_uri, bc.sleeptime, bc.jitter))
@@ -503,6 +513,9 @@ def chunk_derived(chunk, acc):
             acc.fail("C03/derived/protocol", {"kind": "protocol", "value": p}, "no exception", got)
         elif p in PROTO and got[0] != PROTO[p]:
             acc.fail("C03/derived/protocol", {"kind": "protocol", "value": p}, PROTO[p], got[0])
+        elif 0 < p < 32 and (not isinstance(got[0], str) or set(got[0].split("|")) != {PROTO[b] for b in (1, 2, 4, 8, 16) if p & b}):
+            # a combination of the known flags (a bind TCP beacon is tcp|bind) names exactly the flags that are set
+            acc.fail("C03/derived/protocol", {"kind": "protocol", "value": p}, "|".join(PROTO[b] for b in (1, 2, 4, 8, 16) if p & b), got[0])
         elif got[1] != (p * 1031) & 0xFFFF:
             acc.fail("C03/derived/port", {"kind": "protocol", "value": p}, (p * 1031) & 0xFFFF, got[1])
     for port in (0, 1, 80, 443, 0x7FFF, 0x8000, 0xFFFF):
